@@ -482,3 +482,89 @@ Definition orc_of (k : option nat) (decisions : list nat) : orc :=
 
 Definition events_of (f : final) : option (bool * list event) :=
   match f with Done b s => Some (b, rev (tr s)) | _ => None end.
+
+(* ---------- the with statement (Nodes.py WithStatNode, ExprNodes.py WithExitCallNode) ---------- *)
+(* WithExitCallNode.generate_evaluation_code: exit_var(args) is called, exit_var and the args tuple are
+   DECREF-cleared, NULL test, GOTREF(result_var).  result_var is an UNMANAGED temp
+   (allocate_temp(py_object_type, manage_ref=False)): it has no slot that any error label sweeps, the emitted code
+   itself must release it.  In the except branch (test = true) the result is truth-tested:
+     late = false (the code as it is):  IsTrue(result_var); DECREF(result_var); error test
+     late = true  (variant):            IsTrue(result_var); error test; DECREF(result_var)
+   args: the managed temp of the (type, value, tb) tuple, or [] for the constant (None, None, None) tuple. *)
+Definition exit_call (O : orc) (late test : bool) (te : nat) (args : list nat) (s : state) : result :=
+  match rds s (map RTmp (te :: args)) with
+  | RsStuck w => Stuck w
+  | RsUnbound => Err s
+  | RsOk _ =>
+      let k := calls s in
+      bind (decref_all (te :: args) (tick s)) (fun s2 =>
+        if fail O k then Err s2
+        else
+          let o := nxt s2 in
+          let s3 := got o (fresh s2) in
+          if test then
+            let k2 := calls s3 in
+            let s4 := tick s3 in
+            if late then
+              if fail O k2 then Err s4
+              else match give o s4 with
+                   | None => Stuck TooManyDecref
+                   | Some s5 => Norm (set_flag (truth O k2) s5)
+                   end
+            else
+              match give o s4 with
+              | None => Stuck TooManyDecref
+              | Some s5 => if fail O k2 then Err s5 else Norm (set_flag (truth O k2) s5)
+              end
+          else match give o s3 with None => Stuck TooManyDecref | Some s5 => Norm s5 end)
+  end.
+
+(* the emission order exit_call stands for, as op codes compared with the generated C:
+   0 call, 1 DECREF(exit_var), 2 DECREF(args), 3 NULL test, 4 GOTREF(result), 5 IsTrue(result),
+   6 DECREF(result), 7 error test of the truth value *)
+Definition exit_order (late test : bool) : list nat :=
+  [0; 1; 2; 3; 4] ++ (if test then (if late then [5; 7; 6] else [5; 6; 7]) else [6]).
+
+(* __Pyx_GetException(&e0, &e1, &e2): three new references (type, value, traceback) in managed temps *)
+Definition exc_fetch (e0 e1 e2 : nat) (s : state) : result :=
+  bind (new_ref e0 (nxt s) (fresh s)) (fun s1 =>
+  bind (new_ref e1 (nxt s1) (fresh s1)) (fun s2 => new_ref e2 (nxt s2) (fresh s2))).
+
+(* ReraiseStatNode in the except clause: XINCREF + XGIVEREF of the three values (ErrRestore steals them);
+   the temps keep their own references, which the error label releases *)
+Definition reraise3 (O : orc) (e0 e1 e2 : nat) (s : state) : result :=
+  bind (run O [IGiveB (RTmp e0); IGiveB (RTmp e1); IGiveB (RTmp e2)] s) (fun s' => Err s').
+
+(* XDECREF-clear of the managed temps that are free at the end of the try body (TryExceptStatNode:
+   temps_to_clean_up), here: every slot outside [keep] *)
+Definition try_cleanup (keep : list nat) (s : state) : result :=
+  sweep temps set_temps
+        (filter (fun t => negb (existsb (Nat.eqb t) keep)) (seq 0 (kbound (temps s)))) s.
+
+(* with <rm> [as x]: body.  te = exit_var, tv = result of __enter__(), e0 e1 e2 = exception temps, ta = args
+   tuple; keep = temps in use at the try statement (they survive the except label).  The body is a state
+   transformer (for instance exec O fuel (gen_stmt ...)). *)
+Definition with_stat (O : orc) (late : bool) (rm : rand) (te tv e0 e1 e2 ta : nat) (x : option nat)
+                     (keep : list nat) (body : state -> result) (s : state) : result :=
+  bind (step O (IAlloc te) s) (fun s1 =>                    (* exit_var = LookupSpecial(mgr, "__exit__") *)
+  match run O ([IOp tv [rm] []] ++ map IDecref (tmp_of rm)) s1 with   (* __enter__(); manager disposed *)
+  | Err s2 => bind (decref_clear te s2) Err                 (* __pyx_L3_error: DECREF(exit_var) *)
+  | Norm s2 =>
+      let pre := match x with Some v => step O (ISetLoc v (RTmp tv)) s2 | None => decref_clear tv s2 end in
+      let fin (k : state -> result) (s3 : state) := bind (exit_call O late false te [] s3) k in
+      match bind pre body with
+      | Norm s3 => fin Norm s3                              (* finally, normal exit: exit_var(None, None, None) *)
+      | Brk s3 => fin Brk s3
+      | Cnt s3 => fin Cnt s3
+      | Ret s3 => fin Ret s3                                (* the pending return value stays in its managed slot *)
+      | Err s3 =>                                           (* except: *)
+          bind (try_cleanup (te :: keep) s3) (fun s4 =>
+          bind (exc_fetch e0 e1 e2 s4) (fun s5 =>
+          bind (step O (IAlloc ta) s5) (fun s6 =>         (* __Pyx_PyTuple_FromArray: GOTREF(tuple) *)
+          bind (exit_call O late true te [ta] s6) (fun s7 =>
+            if flag s7 then decref_all [e0; e1; e2] s7      (* swallowed: exception_handled *)
+            else reraise3 O e0 e1 e2 s7))))
+      | r => r
+      end
+  | r => r
+  end).
